@@ -131,6 +131,7 @@ MustError(e) ==
   \/ f \in OneMath \cup {"ceil", "floor"} /\ ~ConvOK(e.mgr, a[1].t, "Double")
   \/ f = "choose" /\ a[1].k = "int" /\ a[1].t \in Integral /\ (a[1].n < 0 \/ a[1].n >= Len(a))
   \/ f = "sum" /\ a[1].t \in {"Boolean", "Object", "Array", "DateTime"}
+               /\ \A i \in 1 .. Len(a) : a[i].t # "Null"      \* Null propagates through '+' whatever the other operand (C06): Null is acceptable then
   \/ f = "dayofweek" /\ ~ConvOK(e.mgr, a[1].t, "DateTime")
 \* is an error acceptable although nothing above demands it?  (arguments outside the modelled domain, or a
 \* conversion the installed manager does not offer)
